@@ -30,10 +30,12 @@ META = dict(
                "fixes/C17-error-line-keeps-indentation.diff (text_law_repaired). "
                "The model is tied to PcodeParser by differential execution on whole texts (structured, exhaustive "
                "small scope, arbitrary unicode).",
-    level_note="Partial: a well indented line that does not match the instruction pattern ('    ?', '    :x') is put at "
-               "column 0, leaves its block unflagged, and the next well indented line is flagged and re-nested "
-               "(C17_full / C17_counterexample; known finding unparsable-line-treated-as-column-0; repair proposed, not "
-               "applied). The structure law is for the indentation pass with the committed C17 repair (asis_* witnesses "
+    level_note="The text-level law holds for the parser as repaired in /repo (text_law_repaired; fix 4ad2b33e: an "
+               "indented line that does not match the instruction pattern keeps its column and stays in its block). "
+               "For the line parser before that repair the law is false (C17_full / C17_counterexample on "
+               "'Block: A / Mark: a / ? / Mark: b') and holds on texts whose lines all scan (C17_partial); the check "
+               "runs the repaired variant of the model, so a regression shows as a disagreement plus the oracle key "
+               "unparsable-line-treated-as-column-0. The structure law is for the indentation pass with the committed C17 repair (asis_* witnesses "
                "for the pass before it). 'Four spaces' = any four white-space characters. Blank and "
                "comment-only lines are transparent for the indentation discipline (as in IndentationCheckAnalyzer). "
                "'Parsing never fails' is a model totality + an observable of the correspondence (an exception of the "
@@ -260,7 +262,7 @@ def _uod() -> str:
 # The model follows the code that exists. fixes/C17-error-line-keeps-indentation.diff is a proposed repair that is
 # NOT in /repo: with it applied set this to True (and move the finding of findings.d/C17.json to "fixed"); the
 # Lean side has both variants (`TextLaw false` = C17_full/C17_counterexample/C17_partial, `text_law_repaired`).
-ERROR_LINE_REPAIRED = os.environ.get("VERIF_C17_ERROR_LINE_REPAIRED") == "1"   # default: the code as it is
+ERROR_LINE_REPAIRED = os.environ.get("VERIF_C17_ERROR_LINE_REPAIRED", "1") == "1"   # the repair is committed in /repo (fix: 2nd C17 entry)
 
 
 def text_op(case: dict, fx_indent: str = "1", fe: str | None = None) -> list[str]:
